@@ -70,10 +70,13 @@ def common(self_struct='struct nv_learner', task=False):
         track.effect_hooks.append(crh)
     hk = ([crh] if task else []) + [frame.param_ref_hook(), track.field_hook, track.expr_hook]
     return dict(types=TYPES, opaque=ERASED, hooks=hk, stmt_hooks=[track.stmt_hook], uf_float=True, self_struct=self_struct,
-                calls=[(r'^operator->\|', '{0}'), (r'^ctor\|nano::(targets|flatten)_iterator_t\|', 'nv_iter_make({&0})'), (r'^operator!=\|.*__normal_iterator', '({0} != {1})'), (r'^operator\+\+\|.*__normal_iterator', '(++{0})'),
+                calls=[(r'^operator->\|', '{0}'), (r'^make_range\|', 'nv_pure_range({0}, {1})'),
+                       (r'^ctor\|nano::tensor_range_t\|void \(const nano::tensor_size_t, const nano::tensor_size_t\)', 'nv_pure_range({0}, {1})'), (r'^ctor\|nano::(targets|flatten)_iterator_t\|', 'nv_iter_make({&0})'), (r'^operator!=\|.*__normal_iterator', '({0} != {1})'), (r'^operator\+\+\|.*__normal_iterator', '(++{0})'),
                        (r'^operator\*\|.*__normal_iterator', '(*nv_wl_at(&self->m_wlearners, {0}))'),
                        (r'^(fabs|abs|sqrt|isfinite)\|.*#1$', '@nondet'), (r'^(max|min)\|.*#2$', '@nondet')],
-                members=[(r'^(error|value|vgrad)\|nano::loss_t\|#3', 'nv_loss_call_o({self}, {&2})'),
+                members=[(r'^begin\|nano::tensor_range_t', '{self}->m_begin'), (r'^end\|nano::tensor_range_t', '{self}->m_end'),
+                         (r'^size\|nano::tensor_range_t', '({self}->m_end - {self}->m_begin)'),
+                         (r'^(error|value|vgrad)\|nano::loss_t\|#3', 'nv_loss_call_o({self}, {&2})'),
                          (r'^critical_compatible\|nano::learner_t', 'nv_learner_const_call({self})!'),
                          (r'^do_predict\|nano::learner_t \*\|#3|^do_predict\|nano::learner_t\|#3', 'nv_learner_const_call({self})'),
                          (r'^predict\|nano::learner_t \*\|#2|^predict\|nano::learner_t\|#2', 'nv_learner_predict2({self})!'),
